@@ -94,6 +94,7 @@ def main():
     mod = importlib.import_module(f"props.{prop.lower()}")
     if args.replay:
         case = json.load(open(args.replay))
+        case["_path"] = args.replay
         return mod.replay(ctx, case)
     mod.run(ctx)
 
